@@ -57,6 +57,41 @@ theorem one_socket_dir (P : Params) (hP : P.Good) (l : Launch) (alive : Bool) (s
   have hi := inv_of_reachable P hP l alive s h
   have := hi.dirs; have := hi.once; omega
 
+/-! ### The pure accessors, and a first Start that failed -/
+
+/-- **`ReattachConfig`, `ID` and `Exited` are accessors**: whatever the state, they launch nothing, start nothing, cache
+nothing and kill nothing — they only return. -/
+theorem accessors_change_nothing (P : Params) (s s' : State) (e : Event)
+    (he : e = .reattachConfig ∨ e = .id ∨ e = .exited) (h : step P s e = some s') :
+    s'.launches = s.launches ∧ s'.addr = s.addr ∧ s'.cached = s.cached ∧ s'.runner = s.runner ∧
+    s'.kills = s.kills ∧ s'.dirsCreated = s.dirsCreated ∧ s'.attempted = s.attempted ∧ s'.outs = s.outs ++ [.unit] := by
+  rcases he with rfl | rfl | rfl <;> (simp only [step, emit, Option.some.injEq] at h; subst h; simp)
+
+/-- **A first Start that failed stays failed**: once a launch has been attempted and produced no address, every
+further `Start` (with `Cmd` or `RunnerFunc`) returns an error and changes nothing — it neither launches again nor
+creates a socket directory — whatever the new process would have done. -/
+theorem failed_start_stays_failed (P : Params) (hP : P.Good) (s : State) (hsOk : Bool)
+    (hl : s.launch = .cmd ∨ s.launch = .runnerFunc) (ha : s.attempted = true) (hn : s.addr = none) :
+    doStart P s hsOk = (s, .err) := by
+  obtain ⟨h1, h2, _⟩ := hP
+  unfold doStart
+  rcases hl with hl | hl <;> simp [h1, h2, hn, hl, ha]
+
+/-- … and so do `Client()` and `Protocol()`, which go through `Start`: an error, nothing launched. -/
+theorem failed_start_fails_client_and_protocol (P : Params) (hP : P.Good) (s : State) (hsOk connOk : Bool)
+    (hl : s.launch = .cmd ∨ s.launch = .runnerFunc) (ha : s.attempted = true) (hn : s.addr = none) :
+    step P s (.client hsOk connOk) = some (emit (s, .err)) ∧ step P s (.protocol hsOk) = some (emit (s, .err)) := by
+  have h := failed_start_stays_failed P hP s hsOk hl ha hn
+  simp [step, h]
+
+/-- non-vacuity: the state after a failed first `Start` meets the hypotheses, and it is reachable -/
+example : ∃ s, runFrom ⟨true, true, true, true, true, true, true⟩ (init .runnerFunc false) [.start false] = some s ∧
+    s.attempted = true ∧ s.addr = none ∧ s.launch = .runnerFunc ∧ s.outs = [.err] := by
+  refine ⟨(runFrom ⟨true, true, true, true, true, true, true⟩ (init .runnerFunc false) [.start false]).get (by decide), by simp, by decide, by decide, by decide, by decide⟩
+
+/-- without the retry guard the hypothesis-meeting state DOES relaunch (a `RunnerFunc` client) -/
+example : (doStart ⟨false, true, true, true, true, true, true⟩ { init .runnerFunc false with attempted := true } true).1.launches = 1 := by decide
+
 /-! ### Witness: without the retry guard a custom runner is relaunched on every retry (former defect D10) -/
 
 def pNoGuard : Params := ⟨false, true, true, true, true, true, true⟩
